@@ -299,3 +299,15 @@ Proof. eexists. vm_compute. auto 10. Qed.
 Lemma ex_reject : decide LL ex_stream 10 None = Respond400 /\ decide LL ex_stream 1 None = Respond400
   /\ decide LL ex_stream 9 (Some 0) = Block.
 Proof. vm_compute. auto. Qed.
+
+(* finding F28: the code's range check excludes the HEAD of the window: the first listed
+   segment (media sequence number 1 here: a listed gap, contained in the playlist of the same
+   state) is rejected with 400 although it has not expired *)
+Lemma head_of_window_400_refuted :
+  exists s M pl, wf_stream LL s /\ in_range s /\ M = head_msn s /\
+    generateMediaPlaylistFMP4 LL s false [] = Some pl /\
+    pl_contains pl M None = true /\ pl_contains pl M (Some 0) = true /\
+    decide LL s M None = Respond400 /\ decide LL s M (Some 0) = Respond400.
+Proof.
+  exists ex_stream, 1. eexists. split; [apply ex_wf|]. split; [apply ex_in_range|]. vm_compute. auto 10.
+Qed.
